@@ -88,3 +88,12 @@ def sparse_centerer_fit(Knm, Kmm, sample_weight, with_center, with_trace, rcond,
 
 def sparse_centerer_transform(Knm, rows, scale):
     return (Knm - rows) / scale
+
+
+def zero_variance_columnwise(var, mean, atol, rtol):
+    # a column whose variance is below atol + |mean| rtol cannot be standardised
+    return np.any(var < atol + abs(mean) * rtol)
+
+
+def zero_variance_total(var, mean, atol, rtol):
+    return var.sum() < abs(np.average(mean)) * rtol + atol
